@@ -24,6 +24,8 @@ def plan(tier, seed):
     jobs.append(ch("C07", G, "h_find_max_part", t, ["writer.find_max_part", "api.part_ids"]))
     jobs.append(ch("C07", G, "h_find_max_part_dirs", t, ["writer.find_max_part", "api.part_ids"]))
     jobs.append(ch("C07", G, "h_find_max_part_order", t, ["writer.find_max_part", "api.part_ids"]))
+    jobs.append(ch("C07", "vf/pyshim/h_write.py", "h_write_append_truthy", t,
+                   ["writer.write (dispatch on the append argument)"]))
     jobs.append(ch("C07", "vf/pyshim/h_write.py", "h_write_append_options", t,
                    ["writer.write (append branch)", "api.ParquetFile.write_row_groups (signature)"]))
     jobs.append(ch("C07", G, "h_append_scheme", t, ["api.ParquetFile.write_row_groups", "writer.write_multi",
